@@ -167,6 +167,8 @@ func init() {
 			Harness{Fn: "ZZC08Orders", Expect: []string{"orders-ok", "witness:end", "maprange:permuted:2", "maprange:permuted:3"}, MaxInstr: 40_000_000},
 			Harness{Fn: "ZZC08Seed", Expect: []string{"seed-ok", "witness:end", "stub:rand.Int31n", "stub:rand.Float64"}},
 			Harness{Fn: "ZZC08Corpus", Expect: []string{"corpus-ok", "witness:end"}, MaxInstr: 40_000_000},
+		), mainUnit([]string{"main/c05m.go"},
+			Harness{Fn: "ZZC08CLISeed", Expect: []string{"cliseed-ok", "witness:end"}},
 		)},
 		Assumptions: []string{
 			"ZZC08Corpus: the ~150 program texts of the C09/C02/C04 harnesses under every map order; three programs for every map-building operation (repetition / deep copy, inside any, nested)",
